@@ -6,7 +6,8 @@
 (*   [ id, prm |-> [kind, cap, pfc, mxf, thr, bm], rcap (capacity the policy     *)
 (*     object reports), W (flow weights), P, F (per item: priority/deadline,     *)
 (*     flow), wt (capacity units an item occupies), disc, lim0, idle, order, cnt,  *)
-(*     sink, allof (which clauses apply), hassc, sc                                *)
+(*     sink, allof (which clauses apply), hassc, sc, cut (1: the run was stopped  *)
+(*     by end_time, the observed log is a prefix of the machine's)               *)
 (*     (scenario for the QueuePipe machine), fin |-> <<accepted, completed>>,    *)
 (*     log |-> << <<op, item, t, active, limit, depth, x, c>>, ... >> ]          *)
 (*   op: psh (push accepted)  rej (push refused)  pop / pop0 (pop -> item/None)  *)
@@ -40,7 +41,7 @@ VARIABLE ti       \* trace index; one trace is judged per step (machine run and 
 tvars == <<sc, m, ti>>
 
 EmptySc == [wk |-> "server", lim |-> 1, prm |-> PrmOf("fifo", Inf), W |-> <<1>>, arr |-> <<>>,
-            sh |-> [t |-> 0, l |-> 0], dyn |-> <<>>, rt |-> 0]
+            sh |-> [t |-> 0, l |-> 0], dyn |-> <<>>, rt |-> 0, endt |-> 0]
 
 W0(T) ==
     [st |-> [i \in 1..Len(T.P) |-> "new"], oh |-> <<>>, ps |-> PInit(Len(T.W)),
@@ -188,7 +189,7 @@ PipeDiff(T, mlog, r, k) ==
 RECURSIVE Walk(_, _, _, _, _, _)
 Walk(T, mlog, k, c, ww, acc) ==
     IF acc.v # "" \/ k > Len(T.log)
-    THEN IF acc.v = "" /\ acc.qv = "" /\ T.hassc = 1 /\ c # Len(mlog)
+    THEN IF acc.v = "" /\ acc.qv = "" /\ T.hassc = 1 /\ T.cut = 0 /\ c # Len(mlog)
          THEN [acc EXCEPT !.qv = "MODEL:pipe_log_longer", !.qp = k]
          ELSE acc
     ELSE LET r == T.log[k]
